@@ -580,7 +580,6 @@ class Spendables(Driver):
         return 2
 
 
-DRIVERS = [Transactions, Spendables]
 ASSUMPTIONS = [
     "fields take values from the stated boundary alphabets; at most k fields deviate from the base transaction at once (k = 2 quick, 3 thorough); per-input/per-output deviations sit on the last input/output",
     "transaction ids of the Groestlcoin class use single SHA-256 (that coin's definition); all other classes double SHA-256",
@@ -590,5 +589,84 @@ ASSUMPTIONS = [
 ]
 
 
+class History(Driver):
+    """Mode S: serialisation and ids of ONE transaction object must follow its current fields after any sequence of edits."""
+    id = "C07.history"
+    rule = ("state = one Tx object after a history of <= 3 operations from {observe (as_bin, as_hex, id, w_id), give input i a witness by "
+            "direct assignment / by set_witness, remove it, change lock_time, append an output}; after every operation bytes, id and "
+            "w_id must equal the reference serialisation of the current fields (and of a fresh object built from them); "
+            "non-trivial = history that switches between witness and no witness")
+
+    OPS = ["observe", "w0=x", "w0=none", "w1=ex:set_witness", "w1=none:set_witness", "lock+1", "add-output"]
+
+    def __init__(self, tier, seed):
+        Driver.__init__(self, tier, seed)
+        self.depth = 3 if tier == "quick" else 4
+        self.bound = dict(ops=self.OPS, depth=self.depth, coins=list(COINS), starts=["no-witness", "witness"])
+
+    def units(self):
+        for coin in COINS:
+            for start in ("no-witness", "witness"):
+                yield dict(coin=coin, start=start)
+
+    def execute(self, unit):
+        for ln in range(1, self.depth + 1):
+            for seq in itertools.product(range(len(self.OPS)), repeat=ln):
+                case = dict(coin=unit["coin"], start=unit["start"], ops=[self.OPS[i] for i in seq])
+                yield case, self.run(case)
+
+    def run(self, case):
+        T = tx_class(case["coin"])
+        desc = simple_tx_desc(n_in=2, n_out=2, witness=("x", "none") if case["start"] == "witness" else ())
+        model = ref_tx(desc)
+        try:
+            tx = build_tx(T, model)
+        except Exception as e:
+            return BAD("build-raises", "transaction can be built", exc(e), clause="history-build")
+        switched = 0
+        ncalls = 0
+        for step, op in enumerate(["observe"] + list(case["ops"]) + ["observe"]):
+            before = wire.has_witness(model)
+            try:
+                if op == "w0=x":
+                    tx.txs_in[0].witness = [b"\x01\x02\x03"]
+                    model["ins"][0]["witness"] = [b"\x01\x02\x03"]
+                elif op == "w0=none":
+                    tx.txs_in[0].witness = []
+                    model["ins"][0]["witness"] = []
+                elif op == "w1=ex:set_witness":
+                    tx.set_witness(1, [b"", b"\x07"])
+                    model["ins"][1]["witness"] = [b"", b"\x07"]
+                elif op == "w1=none:set_witness":
+                    tx.set_witness(1, [])
+                    model["ins"][1]["witness"] = []
+                elif op == "lock+1":
+                    tx.lock_time += 1
+                    model["lock_time"] += 1
+                elif op == "add-output":
+                    tx.txs_out.append(T.TxOut(5, b"\x51"))
+                    model["outs"].append({"value": 5, "script": b"\x51"})
+                if before != wire.has_witness(model):
+                    switched += 1
+                want = (wire.ser_tx(model), tx_id_hash(case["coin"], wire.ser_tx_legacy(model))[::-1].hex(),
+                        tx_id_hash(case["coin"], wire.ser_tx(model))[::-1].hex())
+                got = (tx.as_bin(), tx.id(), tx.w_id())
+                hexform = tx.as_hex()
+                ncalls += 4
+            except Exception as e:
+                return BAD("history-raises", "operation %r works" % op, "step %d: %s" % (step, exc(e)), clause="history-raises", n=ncalls)
+            if got != want or hexform != want[0].hex():
+                what = "bytes" if got[0] != want[0] else ("id" if got[1] != want[1] else ("w_id" if got[2] != want[2] else "hex"))
+                return BAD("history-differs", "after %r: %s follows the current fields (%s)" % (op, what, short(want[0])),
+                           "%s" % (short(got[0]) if what == "bytes" else got[1:],), clause="history-" + what, n=ncalls, step=step)
+        return OK("switches-%d" % min(switched, 2), n=ncalls)
+
+    def nontrivial(self, cls):
+        return cls != "switches-0"
+
+
 def CONFIGURATIONS():
     return {"tx_classes": {c: "%s.%s" % (tx_class(c).__module__, tx_class(c).__name__) for c in COINS}}
+
+
+DRIVERS = [Transactions, Spendables, History]
